@@ -81,6 +81,14 @@ NOTES = {
  "C15-seed7": "missed by C15's quick tier as it stood (passwords with edge white space were thorough-tier only: `password ` and ` `); caught since the base alphabet of C14/C15 has ` edge blanks\\r\\n` (and the thorough one an ideographic space and a tab around CJK text)",
  "C16-seed7": "missed by C16 as it stood: no configuration had a chart over unloaded sheets, and all clones had the same sheet list; caught since the configuration 2-lazy-clones-chart-over-raw-sheets-one-without-first-sheet exists (a loaded sheet with a line chart over two still-unloaded sheets; clone B has removed the first sheet, so every sheet position differs between the clones) and its oracle compares every part that does not depend on string-registration order (everything but sharedStrings.xml and the sheet parts) byte for byte with what the same workbook writes when it saves alone",
  "C20-seed7": "missed by C20 as it stood (every non-ASCII word was representable in the selected encoding); caught since the sheet specifications `unmappable:1..6` put a text with four emoji - representable in no legacy encoding - into 1 to 6 cells with plain neighbours and two plain rows after them: what stands in for the characters is not pinned, but the field must still begin and end as the text does and every other field and record must be exact",
+ "C01-seed8": "missed by C01 as it stood (no text looked like an escape); caught since the text atoms include `_x0041_`, `_x000D_` and `_x005F_`: text that LOOKS like the OOXML _xHHHH_ escape is still the user's text, character for character",
+ "C02-seed8": "missed by C02 as it stood (every conditional-format rule of the builders set a colour, so no empty differential format ever arose); caught since every third rule of the cond-formats builder has an EMPTY style followed by colouring rules: dxfId must stay inside the dxfs table",
+ "C03-seed8": "missed by C03 (and C05) as it stood: custom number formats of the style family had ids >= 164 only; caught since the cases numfmt-element-defines-id-14 / -44 carry a <numFmt> element whose id is one the library also has a built-in code for (non-US Excel and WPS write such entries): the file's code counts",
+ "C04-seed8": "missed by C04 (and C06) as it stood: no sheet name needed quoting in a conditional-format reference; caught since the loaded special `apostrophe-sheet-in-cf-reference` has rules whose formula is a bare reference to the sheet `Bob's data` - the name doubled its apostrophes with every generation",
+ "C05-seed8": "missed by C05 (and C04) as it stood: every edit followed a reload, so nothing a save leaves behind in the live object could matter; caught since the space `edit-between-saves` is `edit-after-load` without the reload - the workbook object that has just been saved is edited in place (font colour through get_font_mut().get_color_mut(), as the documentation shows) and saved again, twin oracle as before",
+ "C06-seed8": "missed by C06 as it stood but caught by C04: (a) C06 only ever ADDED to a loaded workbook and (b) its annotation dump left the rule's format out. C06 catches it since the space `edit-loaded` removes the first / last loaded item, reverses the list or restyles the first rule (merges, names, comments, validations, conditional formats; 3 layouts) before saving again, and since every conditional-format rule of every dump carries a format tag (bold, background colour, font colour): which differential format a rule points at is part of the rule",
+ "C07-seed8": "missed by C07 as it stood (two sheets with unrelated titles); caught since every seed has a third sheet, `SHEET1`, whose title differs from the first sheet's only in case - the library accepts that - with cells, a merge, a comment, a conditional format and dimensions of its own: an edit addressed to `Sheet1` by name leaves it untouched",
+ "C10-seed8": "missed by C10 (and C07) as it stood: every cell handed to set_cell had a coordinate given as numbers; caught since the alphabet has set_cell with a cell whose Coordinate was given as the text `$B$3`, and the invariant `own-coordinate` also demands that a stored cell's coordinate carries no $ markers (it is a position, not a reference)",
  "C12-seed6": "missed by C12 as it stood (no cell of its histories was a formula) but caught by C11 (corpus files with text formulas); C12 catches it since the space `formula-text` runs the history tree with a marker that reaches its cell as the cached text of a formula (a t=\"str\" cell): its <v> must hold the text, and the text must not turn up in sharedStrings.xml",
  "C14-seed6": "missed by C14 as it stood (every save ran alone; the first verify.log entry shows `suspension-point-not-reached` only because the overlap space was already being written while the hook it needs was not yet in /repo - that is not a detection). Caught since (a) /repo has two guarded hook points inside helper::crypt::encrypt (compound file created / completely written; patch.diff is the change rebased onto that commit, patch-at-65ea4d2.diff the original) and (b) C14 has the space `overlap`: save A suspended at either point, save B (other entry point, other password, other package, same directory) run to completion there, both files judged for their OWN password and package - 3 x 2 x 3 cases, deterministic; C13's overlap space got the same two suspension points and an encrypted B",
  "C16-seed6": "NOT DECIDED by C16 as it stood within 20 minutes (run stopped by hand, exit 137 in the first verify.log entry): the change adds three lock operations per save, each with a hook point as the convention demands, and the COMPLETE exploration of the 2-saver configurations grows combinatorially with them. Caught in 4 s since C16 runs iterative context bounding: a first space with every completely explored configuration at <= 2 preemptions, and the engine skips the remaining spaces when a `first:` space already reports violations (patch.diff is the change rebased onto the commit that added hook sites 13/14, patch-at-65ea4d2.diff the original)",
